@@ -78,7 +78,10 @@ static std::string unxz(const std::string& z) {
     lzma_end(&s); if (r != LZMA_STREAM_END || s.avail_in != 0) return "<bad xz stream>";
     return out;
 }
-enum SinkKind { MEM, FD, NAMED, GZMEM, XZMEM };
+enum SinkKind { MEM, FD, NAMED, GZMEM, XZMEM, FDS };   // FDS: a descriptor whose write(2) transfers at most g_wcap bytes per call (a legal answer of the operating system)
+#include <sys/syscall.h>
+static size_t g_wcap = 0; static uint64_t g_short_writes = 0;
+extern "C" ssize_t write(int fd, const void* buf, size_t n) { if (g_wcap && fd > 2 && n > g_wcap) { g_short_writes++; n = g_wcap; } return syscall(SYS_write, fd, buf, n); }
 static std::string g_dir;
 
 // run one trace: filler(f) then ops; returns "" if ok else description. key receives the op kind blamed.
@@ -92,7 +95,7 @@ static std::string run_trace(unsigned f, const std::vector<Op>& ops, int sink, R
         if (sink == MEM) e.reset(new CDNS::CdnsEncoder(MemSink{&outs}, CDNS::CborOutputCompression::NO_COMPRESSION));
         else if (sink == GZMEM) e.reset(new CDNS::CdnsEncoder(MemSink{&outs}, CDNS::CborOutputCompression::GZIP));
         else if (sink == XZMEM) e.reset(new CDNS::CdnsEncoder(MemSink{&outs}, CDNS::CborOutputCompression::XZ));
-        else if (sink == FD) { fd = open(path.c_str(), O_WRONLY | O_CREAT | O_TRUNC, 0600); e.reset(new CDNS::CdnsEncoder(fd, CDNS::CborOutputCompression::NO_COMPRESSION)); }
+        else if (sink == FD || sink == FDS) { fd = open(path.c_str(), O_WRONLY | O_CREAT | O_TRUNC, 0600); e.reset(new CDNS::CdnsEncoder(fd, CDNS::CborOutputCompression::NO_COMPRESSION)); if (sink == FDS) g_wcap = ops.size() > 100 ? 1000 : 7; }
         else e.reset(new CDNS::CdnsEncoder(path, CDNS::CborOutputCompression::NO_COMPRESSION));
         unsigned salt = 0;
         for (auto& o : fill) { apply(*e, o, salt); exp += expected(o, salt); salt++; }
@@ -114,10 +117,11 @@ static std::string run_trace(unsigned f, const std::vector<Op>& ops, int sink, R
             if (l2 >= 0 && a2 >= 0 && (l2 > 2048 || a2 != 2048 - l2) && why.empty()) { key = std::string("avail|") + KN[o.k]; why = "buffer bookkeeping inconsistent after " + std::string(KN[o.k]); }
         }
     } // destroy -> flush
+    if (sink == FDS) { g_wcap = 0; r.count("short_writes", g_short_writes); g_short_writes = 0; }
     if (sink == MEM) got = outs.empty() ? "" : outs[0];
     else if (sink == GZMEM) got = gunzip(outs.empty() ? "" : outs[0]);
     else if (sink == XZMEM) got = unxz(outs.empty() ? "" : outs[0]);
-    else if (sink == FD) { got = slurp(path); unlink(path.c_str()); }
+    else if (sink == FD || sink == FDS) { got = slurp(path); unlink(path.c_str()); }
     else { got = slurp(path); unlink(path.c_str()); }
     if (!why.empty()) return why;
     if (got != exp) {
@@ -217,8 +221,8 @@ int main(int argc, char** argv) {
         case 7: { // about 450 KB (thorough: 1.8 MB) of calls: 64 short ones, then strings with incompressible content between integers and container heads; every output kind
             unsigned f = t.f / 2, v = t.f % 2; std::vector<Op> ops; for (int i = 0; i < 64; i++) ops.push_back(tri[i % tri.size()]);
             for (int i = 0; i < (T ? 1200 : 300); i++) { ops.push_back({v ? TSTRS : BSTRP, (uint64_t)(v ? 2049 - i % 5 : 1500 + i % 97)}); ops.push_back(tri[i % 14]); if (i % 3 == 0) ops.push_back({BSTRS, (uint64_t)(i % 40)}); }
-            for (int sink : {GZMEM, XZMEM, FD, NAMED}) { check_trace(f, ops, sink, r); r.count("long_traces"); } break; }
-        case 6: { auto al = alphabet(t.f, true); for (int sink : {FD, NAMED, GZMEM}) for (auto& o : al) check_trace(t.f, {o, {U8, 42}}, sink, r); break; }
+            for (int sink : {GZMEM, XZMEM, FD, NAMED, FDS}) { check_trace(f, ops, sink, r); r.count("long_traces"); } break; }
+        case 6: { auto al = alphabet(t.f, true); for (int sink : {FD, NAMED, GZMEM, FDS}) for (auto& o : al) check_trace(t.f, {o, {U8, 42}}, sink, r); break; }
         }
     }, [&](uint64_t i, const std::string& d, Result& r) {
         r.violation("enc|" + crash_key(d), "worker crashed in stage " + std::to_string(tasks[i].stage) + " f=" + std::to_string(tasks[i].f) + ": " + d.substr(0, 1500), pool.last_note.empty() ? "stage=" + std::to_string(tasks[i].stage) + ";f=" + std::to_string(tasks[i].f) : pool.last_note);
